@@ -149,9 +149,14 @@ def model_nozzle(varying=False):
     return st.builds(lambda g, s: dict(name="nozzle", gamma=g, section=s), GAMMAS, section_law(varying))
 
 
-def state_scalar(rough=True, lo=-2.0, hi=2.0):
-    special = st.sampled_from([-2.0, -1.0, 0.0, 0.5, 1.0, 2.0])
-    prof = st.one_of(prof_rough(lo, hi), prof_vals(special), prof_steps(special)) if rough else prof_smooth(lo, hi, 0.3)
+def state_scalar(rough=True, lo=-2.0, hi=2.0, special=True):
+    sp = st.sampled_from([x for x in [-2.0, -1.0, 0.0, 0.5, 1.0, 2.0] if lo <= x <= hi] or [lo, hi])
+    if not rough:
+        prof = prof_smooth(lo, hi, 0.3)
+    elif special:
+        prof = st.one_of(prof_rough(lo, hi), prof_vals(sp), prof_steps(sp))
+    else:
+        prof = prof_rough(lo, hi)
     return st.builds(lambda u: dict(u=u), prof)
 
 
@@ -166,7 +171,8 @@ def state_euler(rough=True, lnrange=3.0, machmax=3.0, smooth_amp=0.1):
     return st.builds(lambda r, p, m: dict(lnrho=r, lnp=p, mach=m), ln, ln, mach)
 
 
-def state_sw(rough=True, lnrange=3.0, frmax=3.0, smooth_amp=0.1):
+def state_sw(rough=True, lnrange=3.0, frmax=3.0, smooth_amp=0.1, machmax=None):
+    frmax = machmax if machmax is not None else frmax
     if rough:
         ln = prof_rough(-lnrange, lnrange)
         fr = st.one_of(prof_rough(-frmax, frmax), prof_const(st.sampled_from([0.0, 1.0, -1.0])))
